@@ -28,6 +28,7 @@ from .gwdriver import parse_write
 
 KEYMAP = {"k1": (0, 0), "k2": (0, 1), "k3": (1, 0), "k4": (1, 1)}  # key -> (child, value type) on node 1
 NODE = 1
+MAX_CHOICES = 60
 AWAKE = 2   # senders named d* address this node, which is not sleeping: their send suspends in its own write
 
 
@@ -56,6 +57,10 @@ class GateTransport(Transport):
         if self.gated:
             fut = asyncio.get_running_loop().create_future()
             name = asyncio.current_task().get_name()
+            if not re.fullmatch(r"listener|final|[sd]\d+", name):
+                # a task the library created itself (names like Task-17 differ from run to run): identify the
+                # suspended write by its content, so that the stateless re-execution stays deterministic
+                name = "w:" + decoded_message.strip()
             self.pending.append((name, fut))
             await fut
 
@@ -209,13 +214,20 @@ def explore(job) -> list[dict]:
     proto, init_keys, plan, max_runs = job
     out = []
     stack = [[]]
-    while stack and len(out) < max_runs:
+    steps = 0
+    while stack and len(out) < max_runs and steps < 40 * max_runs:
+        steps += 1
         prefix = stack.pop()
         ex = Execution(proto, init_keys, plan)
         try:
-            for cmd in prefix:
-                ex.do(cmd)
+            applied = [ex.do(cmd) for cmd in prefix]
             en = ex.enabled()
+            if prefix and not applied[-1]:
+                continue    # the last choice did not apply on re-execution (not deterministic): nothing new below it
+            if len(prefix) > MAX_CHOICES:
+                # far more scheduling decisions than sends and parked commands could need: the code keeps
+                # suspending; finish FIFO and let the monitor judge what was written
+                en = []
             if not en:
                 res = ex.finish()
                 res.update({"proto": proto, "init": init_keys, "plan": plan, "schedule": [list(c) for c in prefix], "drift": 0})
